@@ -171,6 +171,21 @@ impl<T: TypeConfig> EmbeddedReadHandle<T> {
     }
 }
 
+/// Verification hook (compiled only with `--cfg d_engine_verif`; add-only): `get_batch` with `LeaseRead` on a
+/// handle whose `cmd_tx` is closed, so the result tells whether the read was served by the local fast path
+/// (`true`) or fell through to the Raft loop (`false`).
+#[cfg(d_engine_verif)]
+pub async fn verif_embedded_lease_read_is_local<T: TypeConfig>(
+    sm: Arc<T::SM>,
+    lease: Arc<ReadLease>,
+    keys: Vec<Bytes>,
+) -> bool {
+    let (cmd_tx, cmd_rx) = mpsc::channel(1);
+    drop(cmd_rx);
+    let h = EmbeddedReadHandle::<T>::new(sm, lease, cmd_tx);
+    h.get_batch(&keys, ReadConsistencyPolicy::LeaseRead, 1, Duration::from_millis(1)).await.is_ok()
+}
+
 #[cfg(test)]
 #[path = "embedded_read_handle_test.rs"]
 mod tests;
